@@ -428,6 +428,16 @@ impl<T> Parser<T> for ParseCommand<T> {
     fn eval(&self, args: &mut State) -> Result<T, Error> {
         // used to avoid allocations for short names
         let mut tmp = String::new();
+
+        // when the name being completed is typed in full it still can be a prefix of a sibling
+        // command, keep the state around to return the name as not consumed
+        #[cfg(feature = "autocomplete")]
+        let before = if args.is_comp() {
+            Some(args.clone())
+        } else {
+            None
+        };
+
         if self.longs.iter().any(|long| args.take_cmd(long))
             || self.shorts.iter().any(|s| {
                 tmp.clear();
@@ -439,6 +449,9 @@ impl<T> Parser<T> for ParseCommand<T> {
             if args.touching_last_remove() {
                 // in completion mode prefer to autocomplete the command name vs going inside the
                 // parser
+                if let Some(before) = before {
+                    *args = before;
+                }
                 args.clear_comps();
                 args.push_command(self.longs[0], self.shorts.first().copied(), &self.help);
                 return Err(Error(Message::Missing(Vec::new())));
